@@ -1563,6 +1563,11 @@ class Stage:
         cat = vcat if transpose else hcat
         res = cat(sub_expr)
         time = stage._method.control_grid
+        # one time entry per sampled node
+        if not include_last:
+            time = time[:-1]
+        if not include_first:
+            time = time[1:]
         return time, res
 
     def _grid_integrator(self, stage, expr, grid, include_first=True, include_last=True):
@@ -1574,9 +1579,13 @@ class Stage:
             for l in range(stage._method.M):
                 sub_expr.append(stage._method.eval_at_integrator(stage, expr, k, l))
             time.append(stage._method.integrator_grid[k])
+        time = vcat(time)
         if include_last:
             sub_expr.append(stage._method.eval_at_control(stage, expr, -1))
-        return vcat(time), hcat(sub_expr)
+        else:
+            # the last integrator interval carries the final time as well
+            time = time[:-1]
+        return time, hcat(sub_expr)
 
 
     def _grid_integrator_roots(self, stage, expr, grid, include_first=True, include_last=True):
